@@ -1,0 +1,84 @@
+//go:build verif
+
+// Contracts for the verifier in /verif (comment-only; compiled only with -tags verif, adds no code).
+package decoder
+
+// ---- C06/C02: the edit range that replaces a partly typed object key starts exactly as many bytes (and
+// ---- columns) left of the cursor as raw prefix bytes were recovered, stays on the cursor's line and in the
+// ---- cursor's file, and reaches at least the cursor (it extends over the rest of the word to the right).
+//@ contract decoder.objectItemPrefixBasedEditRange (remainingRange, fileBytes, rawPrefixBytes) (result)
+//@   ensures [C02,C06,name:edit-in-the-file-of-the-cursor] result.Filename == remainingRange.Filename
+//@   ensures [C06,C02,name:edit-starts-where-the-typed-prefix-starts] result.Start.Byte == remainingRange.Start.Byte - len(rawPrefixBytes) && result.Start.Column == remainingRange.Start.Column - len(rawPrefixBytes) && result.Start.Line == remainingRange.Start.Line
+//@   ensures [C06,name:edit-starts-at-or-before-the-cursor] result.Start.Byte <= remainingRange.Start.Byte
+//@   ensures [C06,C02,name:edit-reaches-the-cursor] result.End.Byte >= remainingRange.Start.Byte && result.Start.Byte <= result.End.Byte
+//@   ensures [C02,name:end-column-moves-with-end-byte] result.End.Column - remainingRange.Start.Column == result.End.Byte - remainingRange.Start.Byte && result.End.Line == remainingRange.Start.Line
+
+// ---- C08/C06/C02: attribute candidates inside an object. An attribute is offered exactly when its name
+// ---- starts with the typed prefix and it is not declared already elsewhere in the object (a declaration
+// ---- the edit replaces does not count); the candidate is named after the attribute, inserts that name and
+// ---- carries the edit range it was given.
+//@ contract decoder.objectAttributesToCandidates (ctx, prefix, attrs, declared, editRange) (result)
+//@   ensures [C08,name:nothing-from-an-empty-schema] implies(len(attrs) == 0, len(result) == 0)
+//@   loop 1 iter [C08,name:offered-iff-prefix-matches-and-not-declared-elsewhere] (len(candidates) == old(len(candidates)) + 1) == (strings.HasPrefix(name, prefix) && !(haskey(declared, name) && !declared[name].Overlaps(editRange)))
+//@   loop 1 iter [C08] len(candidates) == old(len(candidates)) || len(candidates) == old(len(candidates)) + 1
+//@   loop 1 iter [C06,C02,name:candidate-edits-the-given-range] implies(len(candidates) > old(len(candidates)), candidates[len(candidates)-1].TextEdit.Range == editRange)
+//@   loop 1 iter [C08,C06,name:candidate-is-the-attribute] implies(len(candidates) > old(len(candidates)), candidates[len(candidates)-1].Label == name && candidates[len(candidates)-1].TextEdit.NewText == name && candidates[len(candidates)-1].Kind == lang.AttributeCandidateKind)
+//@   loop 1 iter [C08,name:candidate-describes-the-schema-declared-under-that-name] implies(len(candidates) > old(len(candidates)), candidates[len(candidates)-1].Description == attrs[name].Description && candidates[len(candidates)-1].IsDeprecated == attrs[name].IsDeprecated)
+
+// ---- C08/C06/C02: completion inside an object. Which item holds the cursor decides what is offered: inside a
+// ---- key the attribute names (or, for a parenthesised key where the constraint allows it, a string
+// ---- expression), inside a value whatever the constraint declared under that item's own key admits, in the
+// ---- free space between items the attribute names matching what was typed left of the cursor.
+//@ contract (decoder.Object).CompletionAtPos (obj, ctx, pos) (result)
+//@   assert before (schema.Object).EmptyCompletionData#1 : [C06,name:snippet-tab-stops-start-at-one] arg2 == 1
+//@   ensures [C06,C02,name:empty-value-candidate-inserts-at-the-cursor] implies(len(cData.NewText) >= 0, len(result) == 1 && result[0].TextEdit.Range.Filename == obj.expr.Range().Filename && result[0].TextEdit.Range.Start == pos && result[0].TextEdit.Range.End == pos)
+//@   ensures [C08,name:nothing-without-declared-attributes] implies(typeis(obj.expr, "*hclsyntax.ObjectConsExpr") && len(obj.cons.Attributes) == 0, len(result) == 0)
+//@   loop 1 iter [C08,name:never-between-key-and-value] !(item.KeyExpr.Range().End.Byte <= pos.Byte && pos.Byte < item.ValueExpr.Range().Start.Byte)
+//@   loop 1 iter [C08,name:scan-goes-on-only-past-items-that-do-not-hold-the-cursor] nextItemRange != nil || (item.KeyExpr.Range().Start.Byte <= pos.Byte && !item.KeyExpr.Range().ContainsPos(pos) && !(item.ValueExpr.Range().ContainsPos(pos) || item.ValueExpr.Range().End.Byte == pos.Byte))
+//@   loop 1 iter [C08,name:every-written-key-is-recorded-as-declared] implies(isRawName, haskey(declared, attrName) && declared[attrName] == hcl.RangeBetween(item.KeyExpr.Range(), item.ValueExpr.Range()))
+//@   loop 1 iter [C08,name:recovery-starts-behind-the-last-item-before-the-cursor] ite(nextItemRange == nil, recoveryPos == item.ValueExpr.Range().End, recoveryPos == old(recoveryPos))
+//@   assert before decoder.newExpression#1 : [C08,name:interpolated-key-only-where-allowed-and-as-a-string] obj.cons.AllowInterpolatedKeys && item.KeyExpr.Range().ContainsPos(pos) && as(arg1, "*hclsyntax.ParenthesesExpr") == as(as(item.KeyExpr, "*hclsyntax.ObjectConsKeyExpr").Wrapped, "*hclsyntax.ParenthesesExpr") && as(arg2, "schema.AnyExpression").OfType == cty.String
+//@   assert before decoder.objectAttributesToCandidates#1 : [C08,name:names-of-this-object-minus-the-declared-ones] isRawName && arg2 == obj.cons.Attributes && arg3 == declared
+//@   assert before decoder.objectAttributesToCandidates#1 : [C06,C02,name:key-edit-replaces-the-item-and-starts-before-the-cursor] arg4 == hcl.RangeBetween(item.KeyExpr.Range(), item.ValueExpr.Range()) && arg4.Start.Byte <= pos.Byte
+//@   assert before decoder.objectAttributesToCandidates#1 : [C08,name:prefix-is-the-key-text-left-of-the-cursor] implies(pos.Byte < attrRange.Start.Byte, arg1 == "") && implies(pos.Byte >= attrRange.Start.Byte && pos.Byte - attrRange.Start.Byte <= len(attrName), len(arg1) == pos.Byte - attrRange.Start.Byte)
+//@   assert before decoder.newExpression#2 : [C08,name:value-against-the-constraint-declared-under-its-key] arg1 == item.ValueExpr && haskey(obj.cons.Attributes, attrName) && arg2 == obj.cons.Attributes[attrName].Constraint
+//@   assert before decoder.newExpression#2 : [C08,C06,name:value-holds-the-cursor] item.ValueExpr.Range().ContainsPos(pos) || item.ValueExpr.Range().End.Byte == pos.Byte
+//@   assert before decoder.objectAttributesToCandidates#2 : [C08,name:all-names-after-a-separator] arg1 == "" && arg2 == obj.cons.Attributes && arg3 == declared
+//@   assert before decoder.objectAttributesToCandidates#2 : [C06,C02,name:insert-at-the-cursor] arg4.Filename == eType.Range().Filename && arg4.Start == pos && arg4.End == pos
+//@   assert before decoder.newExpression#3 : [C08,name:interpolated-key-only-where-allowed-and-as-a-string] obj.cons.AllowInterpolatedKeys && as(arg2, "schema.AnyExpression").OfType == cty.String
+//@   assert before decoder.newExpression#3 : [C06,C02,name:empty-expression-at-the-cursor] arg1.Range().Filename == eType.Range().Filename && arg1.Range().Start == pos && arg1.Range().End == pos
+//@   assert before decoder.newExpression#4 : [C08,name:value-against-the-constraint-declared-under-the-typed-key] haskey(obj.cons.Attributes, attrName) && arg2 == obj.cons.Attributes[attrName].Constraint
+//@   assert before decoder.newExpression#4 : [C06,C02,name:empty-expression-at-the-cursor] arg1.Range().Filename == eType.Range().Filename && arg1.Range().Start == pos && arg1.Range().End == pos
+//@   ghost rawPrefix after bytes.TrimLeftFunc#1 : callresult
+//@   ghost typedText after bytes.TrimFunc#2 : callresult
+//@   ghost er after decoder.objectItemPrefixBasedEditRange#1 : callresult
+//@   assert before bytes.TrimFunc#2 : [C08,C06,name:prefix-and-edit-start-come-from-the-same-bytes] arg0 == rawPrefix
+//@   assert before decoder.objectItemPrefixBasedEditRange#1 : [C06,C02,name:edit-computed-from-the-cursor-in-this-file] arg0.Filename == eType.Range().Filename && arg0.Start == pos && arg1 == obj.pathCtx.Files[eType.Range().Filename].Bytes && arg2 == rawPrefix
+//@   assert before decoder.objectAttributesToCandidates#3 : [C08,name:names-matching-the-typed-prefix] arg1 == string(typedText) && arg2 == obj.cons.Attributes && arg3 == declared
+//@   assert before decoder.objectAttributesToCandidates#3 : [C06,C02,name:edit-covers-the-typed-prefix-up-to-the-cursor] arg4 == er && arg4.Filename == eType.Range().Filename && arg4.Start.Byte == pos.Byte - len(rawPrefix) && arg4.Start.Byte <= pos.Byte && pos.Byte <= arg4.End.Byte
+//@   assert before decoder.objectAttributesToCandidates#1 : [C08,name:prefix-never-longer-than-the-name] len(arg1) <= len(attrName)
+
+// ---- C08/C06/C02: completion inside a map. The value of the item that holds the cursor (or a value still to
+// ---- be written after `=`) is completed against the element constraint; a parenthesised key is completed as
+// ---- a string expression only where the constraint allows interpolated keys; a new item is offered at the
+// ---- cursor, with the key as tab stop 1 and the element's tab stops following from 2.
+//@ contract (decoder.Map).CompletionAtPos (m, ctx, pos) (result)
+//@   assert before (schema.Map).EmptyCompletionData#1 : [C06,name:snippet-tab-stops-start-at-one] arg2 == 1
+//@   ensures [C06,C02,name:empty-value-candidate-inserts-at-the-cursor] implies(len(label) >= 0, len(result) == 1 && result[0].TextEdit.Range.Filename == m.expr.Range().Filename && result[0].TextEdit.Range.Start == pos && result[0].TextEdit.Range.End == pos)
+//@   ensures [C08,name:nothing-without-an-element-constraint] implies(typeis(m.expr, "*hclsyntax.ObjectConsExpr") && m.cons.Elem == nil, len(result) == 0)
+//@   assert before invoke:EmptyCompletionData#1 : [C06,name:element-tab-stops-follow-the-key-tab-stop] arg1 == 2
+//@   ensures [C06,C02,name:new-item-inserts-at-the-cursor] implies(len(remainingBytes) == 0, len(result) == 1 && result[0].TextEdit.Range.Filename == eType.Range().Filename && result[0].TextEdit.Range.Start == pos && result[0].TextEdit.Range.End == pos)
+//@   ensures [C06,C02,name:new-item-inserts-at-the-cursor] implies(len(trimmedBytes) == 0 || (len(trimmedBytes) == 1 && isObjectItemTerminatingRune(int32(trimmedBytes[0]))), len(result) == 1 && result[0].TextEdit.Range.Filename == eType.Range().Filename && result[0].TextEdit.Range.Start == pos && result[0].TextEdit.Range.End == pos)
+//@   ensures [C06,name:new-item-key-is-tab-stop-one] implies(len(trimmedBytes) == 0 || (len(trimmedBytes) == 1 && isObjectItemTerminatingRune(int32(trimmedBytes[0]))), result[0].TextEdit.Snippet == "\"${1:key}\" = " + cData.Snippet && result[0].TextEdit.NewText == "\"key\" = " + cData.NewText)
+//@   loop 1 iter [C08,name:never-between-key-and-value] !(item.KeyExpr.Range().End.Byte <= pos.Byte && pos.Byte < item.ValueExpr.Range().Start.Byte)
+//@   loop 1 iter [C08,name:scan-goes-on-only-past-items-that-do-not-hold-the-cursor] item.KeyExpr.Range().Start.Byte <= pos.Byte && !item.KeyExpr.Range().ContainsPos(pos) && !(item.ValueExpr.Range().ContainsPos(pos) || item.ValueExpr.Range().End.Byte == pos.Byte)
+//@   loop 1 iter [C08,name:recovery-starts-behind-the-last-item-before-the-cursor] recoveryPos == item.ValueExpr.Range().End
+//@   assert before decoder.newExpression#1 : [C08,name:value-after-equals-against-the-element-constraint] arg2 == m.cons.Elem
+//@   assert before decoder.newExpression#1 : [C06,C02,name:empty-expression-at-the-cursor] arg1.Range().Filename == eType.Range().Filename && arg1.Range().Start == pos && arg1.Range().End == pos
+//@   assert before decoder.newExpression#2 : [C08,name:interpolated-key-only-where-allowed-and-as-a-string] m.cons.AllowInterpolatedKeys && item.KeyExpr.Range().ContainsPos(pos) && as(arg1, "*hclsyntax.ParenthesesExpr") == as(as(item.KeyExpr, "*hclsyntax.ObjectConsKeyExpr").Wrapped, "*hclsyntax.ParenthesesExpr") && as(arg2, "schema.AnyExpression").OfType == cty.String
+//@   assert before decoder.newExpression#3 : [C08,name:value-against-the-element-constraint] arg1 == item.ValueExpr && arg2 == m.cons.Elem
+//@   assert before decoder.newExpression#3 : [C08,C06,name:value-holds-the-cursor] item.ValueExpr.Range().ContainsPos(pos) || item.ValueExpr.Range().End.Byte == pos.Byte
+//@   assert before decoder.newExpression#4 : [C08,name:interpolated-key-only-where-allowed-and-as-a-string] m.cons.AllowInterpolatedKeys && as(arg2, "schema.AnyExpression").OfType == cty.String
+//@   assert before decoder.newExpression#4 : [C06,C02,name:empty-expression-at-the-cursor] arg1.Range().Filename == eType.Range().Filename && arg1.Range().Start == pos && arg1.Range().End == pos
+//@   assert before decoder.newExpression#5 : [C08,name:value-after-equals-against-the-element-constraint] arg2 == m.cons.Elem
+//@   assert before decoder.newExpression#5 : [C06,C02,name:empty-expression-at-the-cursor] arg1.Range().Filename == eType.Range().Filename && arg1.Range().Start == pos && arg1.Range().End == pos
